@@ -158,6 +158,18 @@ fn run_case(case: &Case, ev: &Evidence) -> CaseResult {
                 }
             }
         }
+        // the freeze survives a write and a reload of the old group: still no commits, still a ReinitClient
+        if case.c(3) % 2 == 0 {
+            let m = others[0];
+            w.save(m).map_err(|e| fail(&format!("write_after_reinit_failed|{}", e.class()), e.text().into()))?;
+            w.reload(m).map_err(|e| fail(&format!("load_after_reinit_failed|{}", e.class()), e.text().into()))?;
+            let party = &mut w.parties[m];
+            match guard(|| party.gm().commit_builder().commit_time(t).build()) {
+                Ok(_) => return Err(fail("old_group_commits_after_reinit|reloaded", format!("member {m}: the re-initialised group commits again after write + load"))),
+                Err(e) if e.is_panic() => return Err(panic_failure(P, "commit after reinit (reloaded)", &e)),
+                Err(e) => ev.class(&format!("old_group_frozen_after_reload:{}", e.class())),
+            }
+        }
         // successor: everybody gets a ReinitClient from a clone of its frozen group
         let mk_client = |w: &World, p: usize| -> Result<mls_rs::group::ReinitClient<VConfig>, OpErr> {
             let g = w.parties[p].g().clone();
@@ -316,6 +328,36 @@ fn run_case(case: &Case, ev: &Evidence) -> CaseResult {
                     Err(e) => ev.class(&format!("unchecked_creator_failed:{}", e.class())),
                 }
             }
+            // a successor that is right in every respect but whose group context extensions are not the announced ones
+            {
+                let mut okps = vec![];
+                let mut orcs = vec![];
+                for p in &included {
+                    let rc = mk_client(&w, *p).map_err(|e| fail(&format!("get_reinit_client_failed|{}", e.class()), e.text().into()))?;
+                    okps.push(guard(|| rc.generate_key_package(Some(t))).map_err(|e| setup_failure(P, "reinit key package", &e))?);
+                    orcs.push((*p, rc));
+                }
+                let mut other = ext.clone();
+                other.set(mls_rs::Extension::new(EXT_TYPE2.into(), vec![0x17, case.c(3) as u8]));
+                let lead4 = mk_client(&w, leader).map_err(|e| fail(&format!("get_reinit_client_failed|{}", e.class()), e.text().into()))?;
+                match guard(|| lead4.verif_commit_unchecked_with_context_extensions(other, okps, ExtensionList::new(), Some(t))) {
+                    Ok((og, ow)) => {
+                        if let Some(ow) = ow.first() {
+                            let owb = ow.to_bytes().expect("enc");
+                            let otree = og.export_tree().to_bytes().expect("tree");
+                            for (p, rc) in orcs {
+                                match guard(|| rc.join(&MlsMessage::from_bytes(&owb)?, Some(ExportedTree::from_bytes(&otree)?), Some(t)).map(|_| ())) {
+                                    Ok(()) => return Err(fail("joiner_accepts_successor_with_other_extensions", format!("party {p}: the successor carries an extension that the ReInit proposal did not announce"))),
+                                    Err(e) if e.is_panic() => return Err(panic_failure(P, "ReinitClient::join(other extensions)", &e)),
+                                    Err(e) => ev.class(&format!("successor_with_other_extensions_refused:{}", e.class())),
+                                }
+                            }
+                        }
+                    }
+                    Err(e) if e.is_panic() => return Err(panic_failure(P, "verif_commit_unchecked_with_context_extensions", &e)),
+                    Err(e) => ev.class(&format!("unchecked_creator_failed:{}", e.class())),
+                }
+            }
             if new_suite == old_suite && sig_compatible {
                 let mut bkps = vec![];
                 let mut brcs = vec![];
@@ -433,6 +475,35 @@ fn run_case(case: &Case, ev: &Evidence) -> CaseResult {
             (true, Ok(x)) => x,
         };
         let tree = (!w.parties[leader].commit_opts.ratchet_tree_extension).then(|| sub.export_tree().to_bytes().expect("tree"));
+        // a sub-group that is right in every respect (members a subset, branch PSK of this epoch) but whose group context
+        // extensions are not the old group's
+        {
+            let mut fkps = vec![];
+            for p in &included {
+                fkps.push(w.key_package(*p).map_err(|e| setup_failure(P, "key_package", &e))?);
+            }
+            let old_ext = w.parties[leader].g().context().extensions.clone();
+            let mut other = old_ext.clone();
+            other.set(mls_rs::Extension::new(EXT_TYPE2.into(), vec![0x17, case.c(3) as u8]));
+            match guard(|| w.parties[leader].g().verif_branch_unchecked_with_context_extensions(b"sub-group-x".to_vec(), other, fkps, Some(t))) {
+                Ok((bad, ws)) => {
+                    if let Some(wm) = ws.first() {
+                        let welcome = wm.to_bytes().expect("enc");
+                        let btree = bad.export_tree().to_bytes().expect("tree");
+                        for p in &included {
+                            let r = guard(|| w.parties[*p].g().join_subgroup(&MlsMessage::from_bytes(&welcome)?, Some(ExportedTree::from_bytes(&btree)?), Some(t)).map(|_| ()));
+                            match r {
+                                Ok(()) => return Err(fail("joiner_accepts_branch_with_other_extensions", format!("party {p}: the sub-group carries a group context extension the old group does not have"))),
+                                Err(e) if e.is_panic() => return Err(panic_failure(P, "join_subgroup(other extensions)", &e)),
+                                Err(e) => ev.class(&format!("branch_with_other_extensions_refused:{}", e.class())),
+                            }
+                        }
+                    }
+                }
+                Err(e) if e.is_panic() => return Err(panic_failure(P, "verif_branch_unchecked_with_context_extensions", &e)),
+                Err(e) => ev.class(&format!("unchecked_creator_failed:{}", e.class())),
+            }
+        }
         let mut joined: Vec<(usize, VGroup)> = vec![];
         if let Some(wm) = welcomes.first() {
             let welcome = wm.to_bytes().expect("enc");
